@@ -2,13 +2,13 @@ import sys, os
 sys.path.insert(0, os.path.dirname(os.path.abspath(__file__)))
 from genprops import gen
 
-IMP16 = """From Coq Require Import ZArith NArith List Bool String Reals Permutation.
+IMP16 = """From Coq Require Import ZArith NArith List Bool String Reals Permutation Floats.
 From Flocq Require Import Raux.
 From Alator Require Import Model.Num Model.Quirks Model.Cost Model.Exchange Model.Uist Model.Server
   Model.Broker Model.Perf Model.Strategy
   Proofs.ServerProofs Proofs.BrokerLedgerProofs Proofs.BrokerLiqProofs Proofs.UistProofs
   Proofs.ExchangeProofs Proofs.ExchangeCorollaries Proofs.StrategyProofs Proofs.EndToEnd16
-  Model.Penelope Proofs.PenelopeProofs Proofs.EndToEndCor.
+  Model.Penelope Proofs.PenelopeProofs Proofs.EndToEndCor Proofs.EndToEndExamples.
 Import ListNotations.
 Local Existing Instance RNum."""
 
@@ -34,6 +34,7 @@ gen("C16", "C16 — the strategy loop walks the whole dataset and records a fait
     ("c16_run_keeps_worth", "sys_run_const", "[R] … hence for the whole run(): every snapshot it records shows the worth the system had when it started."),
     ("c16_constant_prices_end_to_end", "c16_constant_prices_end_to_end", "[R] END TO END from a fresh start: a strategy over a broker that has seen the first date's quotes, init(c), run() on an N-date dataset with constant zero-spread prices: exactly N updates, N snapshots, EVERY snapshot's portfolio value equals the cash deposited c."),
     ("c16_constant_prices_with_withdrawals", "c16_constant_prices_with_withdrawals", "[R] … and with plain withdrawals interleaved between updates every snapshot shows the deposit minus the successful withdrawals so far."),
+    ("c16_end_to_end_example", "c16_end_to_end_observed_at_floats", "Non-vacuity, kernel-evaluated at the IEEE instance: a 3-date constant zero-spread dataset with a gap, 1 % costs, two weights, deposit 1000: three updates, three snapshots each worth exactly 1000, positions opened along the way.", True),
     ("c16_dataset_constant_when_loaded_so", "load_dataset_const", "[R] The dataset premise holds of every Penelope loaded with bid = ask = price(symbol) on every add_quote call."),
     ("c16_refuted_q_strategy_ncf_self_add", "st_deposit_ncf_defect", "Refuted for the code as it was: deposit_cash did net_cash_flow += net_cash_flow, so the figure stayed 0 whatever was deposited."),
 ])
